@@ -92,6 +92,15 @@ Arguments SUnsupportedStr {S}. Arguments SCallable {S} f. Arguments SOther {S}.
 Arguments mkConfig {S} _ _ _.
 Arguments nb_samples {S} c. Arguments bootstrap_method {S} c. Arguments sampling_method {S} c.
 
+(* isinstance(sampling_method, str) / callable(sampling_method) / sampling_method(self) on the values a
+   BootstrapConfig.sampling_method can take (used by the regenerated tail of bootstrap_sample) *)
+Definition is_str {S} (sm : sampling S) : bool :=
+  match sm with SDynamic | SReplacement | SSinglePass | SProportion | SUnsupportedStr => true | _ => false end.
+Definition is_callable {S} (sm : sampling S) : bool :=
+  match sm with SCallable _ => true | _ => false end.
+Definition call_sampler {S} (sm : sampling S) (j : nat) (self : S) : S :=
+  match sm with SCallable f => f j self | _ => self end.
+
 (* getattr(type(self), name): first hit along the class chain [type(self); its bases ...] *)
 Section ClassChain.
   Variable N F : Type.
